@@ -289,6 +289,17 @@ impl Child {
         self.calls.push(CallRec { tok, what: what.into(), res, from, writer_gen: self.writer_gen, tags: BTreeSet::new(), background: false });
     }
 
+    /// is the first faulted operation since log index `from` the updater's directory sync that
+    /// immediately follows its successful `atomic_write(meta.json)`?
+    fn barrier_after_rename_failed(&self, from: usize) -> bool {
+        let log = self.vdir.log();
+        let w = &log[from.min(log.len())..];
+        let Some(i) = w.iter().position(|r| r.faulted) else { return false };
+        let r = &w[i];
+        r.kind == OpKind::SyncDir && r.thread == "segment_updater"
+            && w[..i].iter().rev().find(|x| x.thread == "segment_updater").map(|x| x.kind == OpKind::AtomicWrite && x.path == "meta.json" && x.ok).unwrap_or(false)
+    }
+
     /// a lock file left behind by a failed flush / delete blocks every later acquisition; the
     /// harness records it and removes it by hand (as the documentation tells users to)
     fn clean_stale_locks(&mut self, at: &str) {
@@ -539,7 +550,33 @@ impl Child {
                     }
                     Ok(Err(e)) => {
                         self.record("c".into(), "commit", short_err(&e), from);
-                        self.attempts.push(expected);
+                        if self.barrier_after_rename_failed(from) {
+                            // meta.json was already replaced when the directory sync that follows the rename
+                            // failed: the attempted commit may be visible (and nothing else may be)
+                            self.clean_stale_locks("after commit");
+                            match content_of_storage(self.ram.clone(), self.idf) {
+                                Ok(c) if c == expected => {
+                                    if c != self.last_ok {
+                                        self.violation("oracle", "C11:commit-err-after-meta-rename-visible",
+                                            format!("commit returned Err because the directory sync after the rename of meta.json failed; the attempted commit {c:?} is nevertheless what the storage denotes (visible, durability unknown); last successful commit {:?}", self.last_ok));
+                                    }
+                                    self.last_ok = expected;
+                                    self.attempts.clear();
+                                    self.pending.clear();
+                                }
+                                Ok(c) if c == self.last_ok => self.attempts.push(expected),
+                                Ok(c) => {
+                                    self.violation("oracle", "C11:committed-content-changed", format!("after a commit that failed in the directory sync following the meta.json rename the storage holds {c:?}: neither the last successful commit {:?} nor the attempted one {expected:?}", self.last_ok));
+                                    self.attempts.push(expected);
+                                }
+                                Err(e) => {
+                                    self.violation("oracle", "C11:last-commit-unreadable", format!("after a commit that failed in the directory sync following the meta.json rename: {e}"));
+                                    self.attempts.push(expected);
+                                }
+                            }
+                        } else {
+                            self.attempts.push(expected);
+                        }
                         self.after_writer_error();
                     }
                     Err(_) => {
@@ -729,6 +766,9 @@ impl Child {
             // did this call's updater already write meta.json successfully before operation i?
             let meta_written = log[from..i].iter().any(|x| x.kind == OpKind::AtomicWrite && x.path == "meta.json" && x.ok && x.thread == "segment_updater");
             let created_by = creator.get(r.path.as_str()).cloned().unwrap_or("");
+            // the updater's previous operation in this call was the (successful) rename of meta.json
+            let right_after_rename = r.kind == OpKind::SyncDir && r.thread == "segment_updater"
+                && log[from..i].iter().rev().find(|x| x.thread == "segment_updater").map(|x| x.kind == OpKind::AtomicWrite && x.path == "meta.json" && x.ok).unwrap_or(false);
             let th = r.thread.as_str();
             let (tag, bg): (&'static str, bool) = if r.path == WLOCK {
                 match r.kind {
@@ -751,6 +791,8 @@ impl Child {
                     'c' => {
                         if !meta_written {
                             if r.kind == OpKind::SyncDir || r.path == "meta.json" || r.path == ".managed.json" && r.kind == OpKind::AtomicWrite && log[from..i].iter().any(|x| x.kind == OpKind::SyncDir && x.thread == "segment_updater") { ("sm", false) } else { ("pu", false) }
+                        } else if right_after_rename {
+                            ("s2", false)
                         } else {
                             match r.kind { OpKind::Delete => ("gd", false), _ => ("gm", false) }
                         }
@@ -758,6 +800,8 @@ impl Child {
                     'm' => {
                         if !meta_written {
                             if r.kind == OpKind::SyncDir || r.path == "meta.json" { ("es", false) } else { ("ep", false) }
+                        } else if right_after_rename {
+                            ("e2", false)
                         } else {
                             match r.kind { OpKind::Delete => ("gd", false), _ => ("gm", false) }
                         }
@@ -814,7 +858,7 @@ impl Child {
                 'n' if ok && (has("lo") || has("lf") || has("cr")) => self.violation("oracle", "C11:error-swallowed-in-new-writer", format!("Index::writer returned Ok although {:?} failed", c.tags)),
                 'c' => {
                     let updater_attributable = !self.wl.default_merge_policy;
-                    if ok && (has("wk") || (updater_attributable && (has("pu") || has("sm")))) {
+                    if ok && (has("wk") || (updater_attributable && (has("pu") || has("sm") || has("s2")))) {
                         self.violation("oracle", "C11:error-swallowed-in-commit", format!("commit returned Ok although one of its storage operations failed (phases {:?})", c.tags));
                     }
                     if ok && worker_failed_gen == Some(c.writer_gen) {
@@ -836,7 +880,7 @@ impl Child {
                 'd' => {
                     worker_failed_gen = None;
                 }
-                'm' if ok && (has("mt") || has("ep") || has("es")) => self.violation("oracle", "C11:error-swallowed-in-merge", format!("merge returned Ok although {:?} failed", c.tags)),
+                'm' if ok && (has("mt") || has("ep") || has("es") || has("e2")) => self.violation("oracle", "C11:error-swallowed-in-merge", format!("merge returned Ok although {:?} failed", c.tags)),
                 'l' if ok && has("rl") => self.violation("oracle", "C11:error-swallowed-in-reload", "reload returned Ok although one of its reads failed".into()),
                 'g' if ok && (has("gl") || has("gm")) => self.violation("oracle", "C11:error-swallowed-in-gc", format!("garbage_collect_files returned Ok although {:?} failed", c.tags)),
                 _ => {}
@@ -1204,7 +1248,7 @@ pub fn run(ctx: &mut Ctx) {
     ctx.report.correspondence_obligations = vec![
         "Result (Ok/Err/panic) of every API call of the executed script (recovery calls included) = result computed by the Lean fault model from the phases the faulted operations were attributed to (single-worker workloads without background merges)".into(),
         "oracle (1): a commit that returned Ok is complete — re-opened storage holds exactly the expected documents".into(),
-        "oracle (2): the last successful commit (or a later complete attempt) is readable and searchable after every step and after re-opening; validate_checksum clean".into(),
+        "oracle (2): the last successful commit (or a later complete attempt) is readable and searchable after every step and after re-opening; validate_checksum clean; after a commit that returned Err the storage denotes the last successful commit — or exactly the attempted one, only when the failed operation was the directory sync right after that commit's meta.json rename (finding C11:commit-err-after-meta-rename-visible)".into(),
         "oracle (3): the fault is reported by the call whose phase it hit or by the next commit (worker), or confined to a merge, or an ignored GC failure (file stays managed), or fails one reload".into(),
         "oracle (4): after rollback / drop of the failed writer a new writer opens, adds and commits".into(),
         "oracle (5): no panic escapes an API call; the child process neither aborts nor exceeds the wall-clock limit".into(),
